@@ -42,7 +42,7 @@ PROPS = {
         "module": "GtfsVerif.Props.C01",
         "trusted_base": ST_TB,
         "runs": [{"cmd": "run", "prop": "C01"}, {"cmd": "run", "prop": "FLT"}],
-        "partial": ["the composition is proved in three layers that the reader has to put together: bytes to header and rows for every presentation (C01_readFile_presented), ParseStatic on a readable feed as the composition of the ten per-file row functions in dependency order (C01_composition, C01_composition_explicit), and per-row transcription / one entity per accepted row (C01_route_fields, C01_trip_fields, C01_stop_fields, C01_transfer_fields, C01_shape_row_fields, C01_frequency_fields, C01_stop_time_fields, C01_calendar_row, C01_one_entity_per_row; agency rows and calendar_dates rows are tied by the correspondence and by C09/C11's theorems), with the oracle comparing every field with the generated cells and two further presentations",
+        "partial": ["the statement 'well-formed archive in, exactly the written entities out, whatever the presentation' is one theorem down to headers and rows (C01_end_to_end: any archive holding any presentation of ten tables parses to the composition of the ten row functions over those tables; C01_presentation_independent as its corollary) plus per-row transcription theorems (C01_route_fields, C01_trip_fields, C01_stop_fields, C01_transfer_fields, C01_shape_row_fields, C01_frequency_fields, C01_stop_time_fields, C01_calendar_row, C01_one_entity_per_row; agency rows and calendar_dates rows are tied by the correspondence and by C09/C11's theorems); the typed-feed reading (unique ids, resolvable references => every row accepted and every reference the named entity) is carried by C03's reference theorems and by the oracle, which compares every field with the generated cells under two further presentations; zip/flate are outside the model",
                     "a transfers.txt row with from_stop_id = to_stop_id yields no Transfer (finding D20, pinned by TestParse/same_stop_transfer): well-formed feeds of the generator keep from != to"],
         "assumptions": ["values free of CR; unquoted fields free of comma, quote, LF (as the statement's quantifier)"],
     },
@@ -175,8 +175,8 @@ PROPS = {
 
 MANIFEST_TEXT = {
     "C01": {
-        "text": "Theorems: the CSV reader returns exactly the written records for every quoting / LF-CRLF / final-newline choice (proved over the byte-level reader model), BOM removal, lookup by header name and member lookup by name, per-row transcription of routes / stops / trips, one entity per accepted row in order, ParseStatic on a readable feed as the composition of the ten per-file row functions in dependency order, H:MM:SS (past 24:00:00) decoding, YYYYMMDD decoding for every eight-digit string (valid dates are the civil day they name, everything else is rejected: no roll-over), decimal cells certified as correctly rounded binary64 values (within half a unit in the last place, ties to even; exact arithmetic), enums by digit over the regenerated decoders; columns, required flags and the file table of the source are tied to the model's. The correspondence parses each well-formed feed under three presentations and compares every field with the model and with the generated cells.",
-        "note": "Trusted: Lean kernel, harness, zip/flate, tz database; strconv.ParseFloat is not trusted for plain decimals (every answer is certified in exact arithmetic; the certificate is validated against strconv with neighbouring bit patterns as negative controls; that exactly one pattern passes is validated that way, not proved); encoding/csv is modelled and validated (also by a dedicated random-bytes stream). The composition is proved in layers (presentation, ten-file composition, per-row transcription for routes, trips, stops, transfers, shape points, frequencies, stop times and calendar rows).",
+        "text": "Theorems: the CSV reader returns exactly the written records for every quoting / LF-CRLF / final-newline choice (proved over the byte-level reader model), BOM removal, lookup by header name and member lookup by name, per-row transcription of routes / stops / trips, one entity per accepted row in order, ParseStatic on any archive presenting ten tables as the composition of the ten per-file row functions over those tables (one end-to-end theorem, presentation only in the hypotheses; presentation independence as corollary), H:MM:SS (past 24:00:00) decoding, YYYYMMDD decoding for every eight-digit string (valid dates are the civil day they name, everything else is rejected: no roll-over), decimal cells certified as correctly rounded binary64 values (within half a unit in the last place, ties to even; exact arithmetic), enums by digit over the regenerated decoders; columns, required flags and the file table of the source are tied to the model's. The correspondence parses each well-formed feed under three presentations and compares every field with the model and with the generated cells.",
+        "note": "Trusted: Lean kernel, harness, zip/flate, tz database; strconv.ParseFloat is not trusted for plain decimals (every answer is certified in exact arithmetic; the certificate is validated against strconv with neighbouring bit patterns as negative controls; that exactly one pattern passes is validated that way, not proved); encoding/csv is modelled and validated (also by a dedicated random-bytes stream). C01_end_to_end composes presentation, member lookup and the ten-file composition; per-row transcription for routes, trips, stops, transfers, shape points, frequencies, stop times and calendar rows are separate theorems.",
         "technique": "Lean 4 proof (CSV presentation round trip, per-row transcription) over regenerated schema facts + generator-truth correspondence",
     },
     "C03": {
